@@ -342,6 +342,21 @@ func (t *ftr) fxCall(e ast.Expr) (*fxRes, bool) {
 		}
 		t.fail("os.OpenFile with flags %s is outside the translated subset", t.src(c.Args[1]))
 		return nil, true
+	case "yaml.Update":
+		// yaml.Update(f, path, value) rewrites the parsed file in place: the parameter returns the new file
+		if p, ok := t.sp.extFns[name]; ok && len(c.Args) == 3 {
+			id, ok := c.Args[0].(*ast.Ident)
+			if !ok || t.lookup(id.Name) == nil || t.lookup(id.Name).k != "yfile" {
+				t.fail("yaml.Update: the file must be a local variable")
+				return nil, true
+			}
+			a, pp, ok := t.args(name, c, p.t.params)
+			if !ok || pp {
+				return nil, true
+			}
+			t.muts[id.Name] = true
+			return &fxRes{call: p.name + " " + strings.Join(a, " "), outs: []string{id.Name}, results: []*ty{tErr}}, true
+		}
 	case "fmt.Fprintf":
 		if len(c.Args) < 2 {
 			return nil, false
@@ -597,6 +612,9 @@ func (t *ftr) ioExpr(e ast.Expr, hint *ty) (ex, bool) {
 			if hint != nil && hint.k == "texts" {
 				return ex{"([] : List (List UInt8))", tTexts, false}, true
 			}
+			if hint != nil && hint.k == "merrs" {
+				return ex{"([] : List GoSnaps.GoIO.MErr)", tMErrs, false}, true
+			}
 		case "isCI":
 			if t.lookup(e.Name) == nil && t.sp.fx == "st" {
 				return ex{"st.env.isCI", tBool, false}, true
@@ -604,6 +622,14 @@ func (t *ftr) ioExpr(e ast.Expr, hint *ty) (ex, bool) {
 		case "shouldClean":
 			if t.lookup(e.Name) == nil && t.sp.fx == "st" {
 				return ex{"(GoSnaps.Generated.shouldClean st.env)", tBool, false}, true
+			}
+		case "errPathNotFound":
+			if t.lookup(e.Name) == nil && t.sp.pkg == "match" {
+				if c, ok := t.pkg.values[e.Name].(*ast.CallExpr); ok && selName(c.Fun) == "errors.New" && len(c.Args) == 1 {
+					if msg, ok := t.pkg.constString(c.Args[0]); ok && !t.pkg.assignedAnywhere(e.Name) {
+						return ex{"(" + ioNS + "Err.other " + bytesLit(msg) + ")", tErr, false}, true
+					}
+				}
 			}
 		case "errSnapNotFound":
 			if t.lookup(e.Name) == nil && t.sp.pkg == "snaps" {
@@ -670,7 +696,19 @@ func (t *ftr) ioExpr(e ast.Expr, hint *ty) (ex, bool) {
 				}
 			}
 		}
+	case *ast.UnaryExpr:
+		if e.Op == token.AND {
+			if cl, ok := e.X.(*ast.CompositeLit); ok {
+				switch t.src(cl.Type) {
+				case "anyMatcher", "customMatcher":
+					return t.ioExpr(cl, hint)
+				}
+			}
+		}
 	case *ast.CompositeLit:
+		if x, ok := t.structLit(e); ok {
+			return x, true
+		}
 		if len(e.Elts) == 0 {
 			switch t.src(e.Type) {
 			case "[]match.MatcherError":
@@ -701,8 +739,49 @@ func (t *ftr) ioExpr(e ast.Expr, hint *ty) (ex, bool) {
 			}
 		}
 	case *ast.CallExpr:
+		if x, ok := t.matcherMethod(e); ok {
+			return x, true
+		}
 		name := selName(e.Fun)
+		if id, m, c, ok := recvCall(e); ok && t.lookup(id.Name) != nil && t.lookup(id.Name).k == "gres" && len(c.Args) == 0 {
+			switch m {
+			case "Exists":
+				return ex{t.ln(id.Name) + ".exists", tBool, false}, true
+			case "Value":
+				return ex{t.ln(id.Name) + ".value", tText, false}, true
+			}
+		}
 		switch name {
+		case "gjson.GetBytes":
+			if p, ok := t.sp.extFns[name]; ok && len(e.Args) == 2 {
+				a, pp, ok := t.args(name, e, p.t.params)
+				if ok {
+					return ex{"(" + p.name + " " + strings.Join(a, " ") + ")", p.t.res, pp}, true
+				}
+				return ex{}, true
+			}
+		case "sjson.SetBytesOptions":
+			// the options argument is the package variable setJSONOptions, whose fields are extracted as
+			// facts (Generated.sjsonReplaceInPlace, sjsonOptimistic); the library call is a parameter
+			if p, ok := t.sp.extFns[name]; ok && len(e.Args) == 4 && t.src(e.Args[3]) == "setJSONOptions" {
+				cc := *e
+				cc.Args = e.Args[:3]
+				a, pp, ok := t.args(name, &cc, p.t.params)
+				if ok {
+					return ex{"(" + p.name + " " + strings.Join(a, " ") + ")", p.t.res, pp}, true
+				}
+				return ex{}, true
+			}
+		case "parser.ParseBytes":
+			if p, ok := t.sp.extFns[name]; ok && len(e.Args) == 2 && t.src(e.Args[1]) == "parser.ParseComments" {
+				cc := *e
+				cc.Args = e.Args[:1]
+				a, pp, ok := t.args(name, &cc, p.t.params)
+				if ok {
+					return ex{"(" + p.name + " " + strings.Join(a, " ") + ")", p.t.res, pp}, true
+				}
+				return ex{}, true
+			}
 		case "bytes.Equal":
 			if len(e.Args) == 2 {
 				x, y := t.expr(e.Args[0]), t.expr(e.Args[1])
@@ -918,6 +997,9 @@ func (t *ftr) ioStmt(b *strings.Builder, ind string, st ast.Stmt, res *ty) bool 
 					// the zero CleanOpts: Sort = false
 					t.muts[n.Name] = true
 					t.define(b, ind, n.Name, ex{"false", tCOpt, false})
+				case goType(vs.Type) != nil && goType(vs.Type).k == "merrs":
+					t.muts[n.Name] = true
+					t.define(b, ind, n.Name, ex{"([] : List GoSnaps.GoIO.MErr)", tMErrs, false})
 				case goType(vs.Type) != nil && goType(vs.Type).k == "bool":
 					t.define(b, ind, n.Name, ex{"false", tBool, false})
 				case goType(vs.Type) != nil && goType(vs.Type).k == "int":
@@ -1378,6 +1460,159 @@ func sortStrings(a []string) {
 	}
 }
 
+// structLit: MatcherError{Reason: …}, []MatcherError{…}, anyMatcher{…}, customMatcher{…}
+func (t *ftr) structLit(e *ast.CompositeLit) (ex, bool) {
+	type fld struct {
+		lean string
+		t    *ty
+	}
+	tables := map[string]struct {
+		res    *ty
+		fields map[string]fld
+	}{
+		"MatcherError":  {tMErr, map[string]fld{"Reason": {"reason", tErr}, "Matcher": {"matcher", tText}, "Path": {"path", tText}}},
+		"anyMatcher":    {tAnyM, map[string]fld{"paths": {"paths", tTexts}, "placeholder": {"placeholder", tText}, "errOnMissingPath": {"errOnMissingPath", tBool}, "name": {"name", tText}}},
+		"customMatcher": {tCustM, map[string]fld{"callback": {"callback", fnOf(pairOf(tText, tErr), tText)}, "errOnMissingPath": {"errOnMissingPath", tBool}, "name": {"name", tText}, "path": {"path", tText}}},
+	}
+	one := func(tname string, elts []ast.Expr) (ex, bool) {
+		tb, ok := tables[tname]
+		if !ok {
+			return ex{}, false
+		}
+		var parts []string
+		seen := map[string]bool{}
+		p := false
+		for _, el := range elts {
+			kv, ok := el.(*ast.KeyValueExpr)
+			if !ok {
+				t.fail("%s literal with positional fields", tname)
+				return ex{}, true
+			}
+			f, ok := tb.fields[selName(kv.Key)]
+			if !ok {
+				t.fail("%s literal: unknown field %s", tname, selName(kv.Key))
+				return ex{}, true
+			}
+			var x ex
+			if f.t.k == "func" {
+				id, ok := kv.Value.(*ast.Ident)
+				if !ok || t.lookup(id.Name) == nil || t.lookup(id.Name).k != "func" {
+					t.fail("%s literal: field %s must be a function variable", tname, selName(kv.Key))
+					return ex{}, true
+				}
+				x = ex{t.ln(id.Name), f.t, false}
+			} else {
+				x = t.exprH(kv.Value, f.t)
+			}
+			if t.err != nil {
+				return ex{}, true
+			}
+			if !x.t.eq(f.t) && f.t.k != "func" {
+				t.fail("%s literal: field %s has type %s", tname, selName(kv.Key), x.t.lean())
+				return ex{}, true
+			}
+			p = p || x.p
+			seen[f.lean] = true
+			parts = append(parts, f.lean+" := "+x.s)
+		}
+		if len(seen) != len(tb.fields) {
+			t.fail("%s literal does not set every field (zero values are not modelled)", tname)
+			return ex{}, true
+		}
+		return ex{"({ " + strings.Join(parts, ", ") + " } : " + tb.res.lean() + ")", tb.res, p}, true
+	}
+	switch tn := t.src(e.Type); tn {
+	case "MatcherError", "anyMatcher", "customMatcher":
+		return one(tn, e.Elts)
+	case "[]MatcherError":
+		if len(e.Elts) == 0 {
+			return ex{}, false
+		}
+		var items []string
+		p := false
+		for _, el := range e.Elts {
+			var x ex
+			if cl, ok := el.(*ast.CompositeLit); ok && cl.Type == nil {
+				var ok2 bool
+				x, ok2 = one("MatcherError", cl.Elts)
+				if !ok2 {
+					return ex{}, false
+				}
+			} else {
+				x = t.exprH(el, tMErr)
+			}
+			if t.err != nil {
+				return ex{}, true
+			}
+			if x.t.k != "merr" {
+				t.fail("[]MatcherError literal element of type %s", x.t.lean())
+				return ex{}, true
+			}
+			p = p || x.p
+			items = append(items, x.s)
+		}
+		return ex{"[" + strings.Join(items, ", ") + "]", tMErrs, p}, true
+	}
+	return ex{}, false
+}
+
+// matcherMethod: x.m(args) where x is a matcher value and m a translated, non-mutating method of
+// its type, or the callback field of a custom matcher
+func (t *ftr) matcherMethod(e *ast.CallExpr) (ex, bool) {
+	id, m, c, ok := recvCall(e)
+	if !ok {
+		return ex{}, false
+	}
+	vt := t.lookup(id.Name)
+	if vt == nil {
+		return ex{}, false
+	}
+	tname := map[string]string{"anym": "anyMatcher", "typem": "typeMatcher", "custm": "customMatcher"}[vt.k]
+	if tname == "" {
+		return ex{}, false
+	}
+	if vt.k == "custm" && m == "callback" && len(c.Args) == 1 {
+		x := t.expr(c.Args[0])
+		if t.err == nil && x.t.k == "text" {
+			return ex{"(" + t.ln(id.Name) + ".callback " + x.s + ")", pairOf(tText, tErr), x.p}, true
+		}
+		return ex{}, false
+	}
+	d, ok := t.funcs[t.sp.pkg+"."+tname+"."+m]
+	if !ok {
+		return ex{}, false
+	}
+	if len(d.spec.inout) > 0 || d.spec.fx != "" {
+		t.fail("%s.%s changes its receiver: call it as a statement", id.Name, m)
+		return ex{}, true
+	}
+	var lead []string
+	for _, xp := range d.spec.extra {
+		found := false
+		for _, mine := range t.sp.extra {
+			if mine.name == xp.name && mine.t.lean() == xp.t.lean() {
+				found = true
+			}
+		}
+		if !found {
+			t.fail("call of %s.%s needs parameter %s", tname, m, xp.name)
+			return ex{}, true
+		}
+		lead = append(lead, xp.name)
+	}
+	cc := *c
+	a, p, ok2 := t.args(tname+"."+m, &cc, d.params[1:])
+	if !ok2 {
+		return ex{}, true
+	}
+	s := d.ns() + leanDefName(tname+"."+m) + " " + strings.Join(append(append(lead, t.ln(id.Name)), a...), " ")
+	if d.partial {
+		t.partial = true
+		return ex{"(← " + s + ")", nestedPair(d.rets), true}, true
+	}
+	return ex{"(" + s + ")", nestedPair(d.rets), p}, true
+}
+
 // exprMulti: an expression in a position that receives n values
 func (t *ftr) exprMulti(e ast.Expr, n int) ex {
 	// d, ok := decl.(*ast.FuncDecl)
@@ -1557,7 +1792,14 @@ func (p *pkgInfo) structIs(name, want string) bool {
 				var got []string
 				for _, fl := range st.Fields.List {
 					for _, n := range fl.Names {
-						got = append(got, n.Name+":"+selName(fl.Type))
+						tn := selName(fl.Type)
+						if _, ok := fl.Type.(*ast.ArrayType); ok {
+							tn = "[]"
+						}
+						if _, ok := fl.Type.(*ast.FuncType); ok {
+							tn = ""
+						}
+						got = append(got, n.Name+":"+tn)
 					}
 				}
 				return strings.Join(got, ",") == want
